@@ -2,6 +2,7 @@ package sqlsim
 
 import (
 	"fmt"
+	"sort"
 	"strings"
 
 	"github.com/dolthub/go-mysql-server/sql"
@@ -495,6 +496,30 @@ func dmlIndexReads(env *kernel.Env, s *Sess, t *TableDef, model *MTable) {
 			if r[k.Cols[0]] != nil && r[k.Cols[1]] != nil {
 				preds = append(preds, &Pred{Kind: "and", L: &Pred{Kind: "cmp", Col: k.Cols[0], Op: "=", C: r[k.Cols[0]]}, R: &Pred{Kind: "cmp", Col: k.Cols[1], Op: "=", C: r[k.Cols[1]]}})
 			}
+		}
+		if len(k.Cols) > 1 && t.Cols[k.Cols[0]].Kind == KInt && t.Cols[k.Cols[1]].Kind == KInt && k.Prefix == nil {
+			// two boxes over the first two key columns that overlap in both: the ranges built
+			// for the OR have to cover exactly their union
+			box := func(ci int) (lo1, hi1, lo2, hi2 Val) {
+				var v []int64
+				for len(v) < 4 {
+					if x, ok := GenVal(T, &t.Cols[ci], false).(int64); ok {
+						v = append(v, x)
+					} else {
+						v = append(v, int64(len(v)))
+					}
+				}
+				sort.Slice(v, func(i, j int) bool { return v[i] < v[j] })
+				return v[0], v[2], v[1], v[3]
+			}
+			between := func(ci int, lo, hi Val) *Pred {
+				return &Pred{Kind: "and", L: &Pred{Kind: "cmp", Col: ci, Op: ">=", C: lo}, R: &Pred{Kind: "cmp", Col: ci, Op: "<=", C: hi}}
+			}
+			a1, a2, a3, a4 := box(k.Cols[0])
+			b1, b2, b3, b4 := box(k.Cols[1])
+			preds = append(preds, &Pred{Kind: "or",
+				L: &Pred{Kind: "and", L: between(k.Cols[0], a1, a2), R: between(k.Cols[1], b1, b2)},
+				R: &Pred{Kind: "and", L: between(k.Cols[0], a3, a4), R: between(k.Cols[1], b3, b4)}})
 		}
 		for _, p := range preds {
 			q := "SELECT * FROM `t` WHERE " + p.SQL(t)
